@@ -1,0 +1,46 @@
+//go:build verif
+
+// Additional verification hook for the node-lite harness of /verif (C12, C15, C16, C17); build
+// tag `verif` only.  VerifDump copies every stored chunk's 256 KiB payload and reads the whole
+// binIDs vector; the node-lite checks need only the bookkeeping, after every operation.
+package localstore
+
+import "github.com/gauss-project/aurorafs/pkg/shed"
+
+// VerifLiteState is the bookkeeping part of the persisted state (no chunk payloads, no bin ids).
+type VerifLiteState struct {
+	Access []VerifAccessEntry
+	GC     []VerifGCEntry
+	Pin    []VerifPinEntry
+	GCSize uint64
+}
+
+// VerifDumpLite reads the access, gc and pin indexes (ascending key order) and gcSize under
+// batchMu.  Presence of chunk data is observable through the exported Has.
+func (db *DB) VerifDumpLite() (st VerifLiteState, err error) {
+	db.batchMu.Lock()
+	defer db.batchMu.Unlock()
+	err = db.retrievalAccessIndex.Iterate(func(item shed.Item) (bool, error) {
+		st.Access = append(st.Access, VerifAccessEntry{Address: cp(item.Address), AccessTimestamp: item.AccessTimestamp})
+		return false, nil
+	}, nil)
+	if err != nil {
+		return st, err
+	}
+	err = db.gcIndex.Iterate(func(item shed.Item) (bool, error) {
+		st.GC = append(st.GC, VerifGCEntry{AccessTimestamp: item.AccessTimestamp, BinID: item.BinID, Address: cp(item.Address), GCounter: item.GCounter})
+		return false, nil
+	}, nil)
+	if err != nil {
+		return st, err
+	}
+	err = db.pinIndex.Iterate(func(item shed.Item) (bool, error) {
+		st.Pin = append(st.Pin, VerifPinEntry{Address: cp(item.Address), PinCounter: item.PinCounter})
+		return false, nil
+	}, nil)
+	if err != nil {
+		return st, err
+	}
+	st.GCSize, err = db.gcSize.Get()
+	return st, err
+}
